@@ -54,7 +54,7 @@ theorem channelListSorter_spec (chs : List Chan) :
 
 theorem forge_refuses (s : Sequence) (d f t : Bool) (h : s.checkConsistency = .ok false) :
     s.forge d f t = .error .value := by
-  simp [Sequence.forge, h, bind, Except.bind, throw, throwThe, MonadExceptOf.throw]
+  simp [Sequence.forge, h]
 
 theorem channels_refuses (s : Sequence) (h : s.checkConsistency = .ok false) :
     s.channels = .error .consistency := by
@@ -92,7 +92,7 @@ theorem no_SR_raises (s : Sequence) (h : Dict.has s.awgspecs "SR" = false) :
       s.prepareForOutputting = .error .key := by
   have hc : s.checkConsistency = .error .key := by simp [Sequence.checkConsistency, h]
   refine ⟨hc, ?_, ?_⟩
-  · intro d f t; simp [Sequence.forge, hc, bind, Except.bind]
+  · intro d f t; simp [Sequence.forge, hc]
   · simp [Sequence.prepareForOutputting, hc, bind, Except.bind]
 
 /-! ### non-vacuity: positions added as 2, 1 are consistent; 1, 3 are not -/
